@@ -178,6 +178,11 @@ object_id_type RelationsDatabase_id_at(struct RelationsDatabase* db, size_t pos)
 __CPROVER_assigns()
 __CPROVER_ensures(pos >= ghost_nrel || __CPROVER_return_value == ghost_relid[pos])
 ;
+/* m_relations_db[pos]->positive_id(): the absolute value as an unsigned number (osm/object.hpp) */
+uint64_t RelationsDatabase_positive_id_at(struct RelationsDatabase* db, size_t pos)
+__CPROVER_assigns()
+__CPROVER_ensures(pos >= ghost_nrel || __CPROVER_return_value == (ghost_relid[pos] < 0 ? (uint64_t)(-(ghost_relid[pos] + 1)) + 1 : (uint64_t)ghost_relid[pos]))
+;
 /* count_not_removed as seen by its caller: the contract proved in U2_count_not_removed, observed at (ghost_k1, ghost_k2) */
 ptrdiff_t MembersDatabaseCommon_count_not_removed(el_range range)
 __CPROVER_requires(IN_RANGE(ghost_k1) && IN_RANGE(ghost_k2) && __CPROVER_pointer_equals(range.first, ghost_base + ghost_lo) && __CPROVER_pointer_equals(range.second, ghost_base + ghost_hi))
@@ -192,7 +197,7 @@ __CPROVER_ensures(__CPROVER_return_value == ghost_cnt && ghost_cnt >= 0 && (size
 U_remove = Unit(MDB, 'remove', cls='MembersDatabaseCommon', sig=r'osmium::object_id_type member_id', objs=OBJS, stub_siblings={'find': 'MembersDatabaseCommon_find'}, ret='void',
                 pre=HANDLE_READ + [(r'(?<![\w_])count_not_removed\(range\)', 'MembersDatabaseCommon_count_not_removed(range)'),
                                    (r'm_stash\.remove_item\(', 'ItemStash_remove_item(m_stash, '),
-                                   (r'm_relations_db\[elem\.relation_pos\]->id\(\)', 'RelationsDatabase_id_at(m_relations_db, elem.relation_pos)'),
+                                   (r'm_relations_db\[elem\.relation_pos\]->(id|positive_id)\(\)', r'RelationsDatabase_\1_at(m_relations_db, elem.relation_pos)'),
                                    (r'!elem\.is_removed\(\) &&', '!element_is_removed(CNT_INST(elem_it)) &&')] + FOR_ELEM + RANGE_RULES,
                 post=[(r'ItemStash_remove_item\(self->m_stash, \(\*(\w+)\)\)', r'ItemStash_remove_item(self->m_stash, \1)', '?')])
 REMOVE_PRE = ('__CPROVER_is_fresh(self, sizeof(*self)) && ghost_k <= 5 && ghost_w <= 5 && ghost_hi - ghost_lo <= 3 && !self->m_init_phase && self->m_elements.size <= 5 && ghost_lo <= ghost_hi && ghost_hi <= self->m_elements.size && '
@@ -214,7 +219,7 @@ PIPELINES.append(Pipeline('U3_MembersDatabase_remove_bounded', units=[U_isrem, U
      'ghost_lo == ghost_hi || ghost_k == ghost_w || !(CHANGED(ghost_k) && CHANGED(ghost_w))'),
     ('frame', 'assigns', 'ghost_live, ghost_released, ghost_released_hdl, ghost_cnt, __CPROVER_object_whole(self->m_elements.data)')]},
     loop_contracts=False, unwind=5, bounded='a members database of at most 5 elements, at most 3 of them for one member id, at most 4 relations (the loop over the elements of the id is unwound)',
-    replace=['MembersDatabaseCommon_find', 'MembersDatabaseCommon_count_not_removed', 'ItemStash_remove_item', 'RelationsDatabase_id_at'], enforce='MembersDatabaseCommon_remove',
+    replace=['MembersDatabaseCommon_find', 'MembersDatabaseCommon_count_not_removed', 'ItemStash_remove_item', 'RelationsDatabase_id_at', 'RelationsDatabase_positive_id_at'], enforce='MembersDatabaseCommon_remove',
     harness='void harness(void) { struct MembersDatabaseCommon* db; object_id_type m, r; MembersDatabaseCommon_remove(db, m, r); __CPROVER_assert(ghost_live, "canary:released"); __CPROVER_assert(!ghost_live, "canary:kept"); }',
     canaries=['canary:released', 'canary:kept'], replay=('c11_members', lambda cex, o: ['search']), timeout=900,
     note='relative to the contracts of find() (assumed) and count_not_removed (U2)'))
@@ -227,8 +232,11 @@ U_rh_dec = Unit(RDB, 'decrement_members', cls='RelationHandle', pre=RH_PRE, ret=
 U_rh_all = Unit(RDB, 'has_all_members', cls='RelationHandle', selftype='const struct RelationHandle', pre=RH_PRE)
 U_rh_set = Unit(RDB, 'set_members', cls='RelationHandle', pre=RH_PRE, ret='void')
 GH4 = '''
+#ifndef RH_MAX
+#define RH_MAX 1000000
+#endif
 size_t ghost_g;    /* ghost: an arbitrary other relation, whose counter must not be touched */
-#define RH_OK(h) (__CPROVER_is_fresh(h, sizeof(*(h))) && __CPROVER_is_fresh((h)->m_relation_database, sizeof(struct RelationsDatabase)) && (h)->m_relation_database->m_elements.size <= 1000000 && \\
+#define RH_OK(h) (__CPROVER_is_fresh(h, sizeof(*(h))) && __CPROVER_is_fresh((h)->m_relation_database, sizeof(struct RelationsDatabase)) && (h)->m_relation_database->m_elements.size <= RH_MAX && \\
    (h)->m_pos < (h)->m_relation_database->m_elements.size && ghost_g < (h)->m_relation_database->m_elements.size && \\
    __CPROVER_is_fresh((h)->m_relation_database->m_elements.data, (h)->m_relation_database->m_elements.size * sizeof(rel_element)))
 #define MEMBERS(h, i) ((h)->m_relation_database->m_elements.data[i].members)
@@ -358,10 +366,23 @@ PIPELINES.append(Pipeline('U5_MembersDatabase_add_bounded', units=[U_isrem, U_ad
     canaries=['canary:completes', 'canary:incomplete'], replay=('c11_members', lambda cex, o: ['search']), timeout=900, object_bits=10,
     note='template MembersDatabase<TObject>::add<TFunc>: TObject enters only through object.id(), TFunc is the completion callback (assumed contract); relative to the contracts of add_object (U5) and RelationHandle (U4)'))
 
+# the same contract for any way of writing the count (std::count_if, std::find_if + std::distance, a hand-written loop): bounded, loop unwound
+FIND_IF_DIST = [(r'return std::distance\(range\.begin\(\), std::find_if\(range\.begin\(\), range\.end\(\), \[\]\(const element& elem\) \{\s*return ([^;]*);\s*\}\)\);',
+                 r'element* elem_it = range.first; for (; elem_it != range.second; ++elem_it) { if (\1) { break; } } return elem_it - range.first;', '?')]
+U_count_any = Unit(MDB, 'count_not_removed', cls='MembersDatabaseCommon', method=False, static=True, params=['el_range range'], ret='ptrdiff_t',
+                   pre=[(COUNT_IF[0][0], COUNT_IF[0][1], '?')] + FIND_IF_DIST + FOR_ELEM + RANGE_RULES[1:])
+PIPELINES.append(Pipeline('U2_count_not_removed_bounded', units=[U_isrem, U_count_any], prelude=lambda repo: prelude(repo) + GH2, contracts={'MembersDatabaseCommon_count_not_removed': [
+    ('pre:a range of at most 5 elements', 'requires', 'ghost_lo <= ghost_hi && ghost_hi <= 5 && __CPROVER_is_fresh(ghost_base, 6 * sizeof(element)) && IN_RANGE(ghost_k1) && IN_RANGE(ghost_k2) && '
+     '__CPROVER_pointer_equals(range.first, ghost_base + ghost_lo) && __CPROVER_pointer_equals(range.second, ghost_base + ghost_hi)')] + COUNT_CONTRACT[1:]},
+    loop_contracts=False, unwind=7, bounded='ranges of at most 5 elements (loop unwound)', enforce='MembersDatabaseCommon_count_not_removed',
+    harness='void harness(void) { el_range r; ptrdiff_t c = MembersDatabaseCommon_count_not_removed(r); __CPROVER_assert(c != 1, "canary:one"); __CPROVER_assert(c == 1, "canary:other"); }',
+    canaries=['canary:one', 'canary:other'], replay=('c11_members', lambda cex, o: ['search']),
+    note='stand-in that does not depend on how the count is written (the proof U2_count_not_removed follows the std::count_if form)'))
+
 TRUSTED = ['std::equal_range on the vector sorted by member id (C++ standard): MembersDatabaseCommon::find() is replaced by its assumed contract',
            'std::sort in prepare_for_lookup()', 'ItemStash (under contract in C15; here its operations are assumed contracts)']
 ASSUMPTIONS = ['the representation invariant of the elements of one member id (same handle; a non-removed element with a valid handle implies the item is in the stash) is assumed at every read of an element handle and proved to be re-established by remove() and add()']
-NOT_DECIDED = ['the whole-history statement (every complete relation is handed over exactly once, incomplete ones are listed): only the per-operation contracts that history rests on',
+NOT_DECIDED = ['MembersDatabaseCommon::track and prepare_for_lookup (std::sort), RelationsDatabase::add/remove/for_each_relation, the dropped assert(elem.member_num < rel_handle->members().size()) in add()', 'the whole-history statement (every complete relation is handed over exactly once, incomplete ones are listed): only the per-operation contracts that history rests on',
                'RelationsManager / MultipolygonManager templates, the callback-driven flush of the output buffer', 'SecondPassHandler ordering']
 LEVEL_TEXT = ('Proof, per operation, for the counting and release kernel of the relations manager: MembersDatabaseCommon::get_object (a released object is reported as absent), count_not_removed, '
               'add_object, the RelationHandle counters. Bounded stand-ins (at most 3 elements per member id, loop unwound, never counted as proved): MembersDatabaseCommon::remove (released exactly with the '
